@@ -165,6 +165,28 @@ func zzItoa(n int) string {
 }
 
 // zzLeafValue: the canonical value of a leaf field (the reference uses the same function).
+func zzInSummary(in map[string]interface{}) string {
+	if in == nil {
+		return "(none)"
+	}
+	out := "("
+	for _, k := range []string{"a", "b", "c", "d", "n"} {
+		v, ok := in[k]
+		if !ok {
+			continue
+		}
+		out += k
+		switch x := v.(type) {
+		case string:
+			out += "=" + x
+		case map[string]interface{}:
+			out += zzInSummary(x)
+		}
+		out += ";"
+	}
+	return out + ")"
+}
+
 func zzLeafValue(parent, field string, args map[string]interface{}) interface{} {
 	if parent == "Query" && field == "i" {
 		// echo the arguments so that argument delivery is observable in the response
@@ -185,6 +207,11 @@ func zzLeafValue(parent, field string, args map[string]interface{}) interface{} 
 			return "none"
 		}
 		return "other"
+	}
+	if parent == "Query" && field == "io" {
+		// echo the shape of the input object (which fields arrived, strings verbatim)
+		in, _ := args["in"].(map[string]interface{})
+		return "io" + zzInSummary(in)
 	}
 	if parent == "Query" && field == "s" {
 		t, hasT := args["t"].(string)
@@ -219,16 +246,38 @@ func zzLeafValue(parent, field string, args map[string]interface{}) interface{} 
 	return parent + "." + field
 }
 
+func zzDeepCopy(v interface{}) interface{} {
+	switch x := v.(type) {
+	case map[string]interface{}:
+		m := map[string]interface{}{}
+		for k, e := range x {
+			m[k] = zzDeepCopy(e)
+		}
+		return m
+	case []interface{}:
+		l := make([]interface{}, len(x))
+		for i, e := range x {
+			l[i] = zzDeepCopy(e)
+		}
+		return l
+	}
+	return v
+}
+
 // zzBuildSchema builds the real schema from the table.
 func zzBuildSchema(w *zzWorld) Schema {
 	color := NewEnum(EnumConfig{Name: "Color", Values: EnumValueConfigMap{
 		"RED": &EnumValueConfig{Value: 0}, "GREEN": &EnumValueConfig{Value: 1}, "BLUE": &EnumValueConfig{Value: "b"}}})
-	inObj := NewInputObject(InputObjectConfig{Name: "In", Fields: InputObjectConfigFieldMap{
-		"a": &InputObjectFieldConfig{Type: Int},
-		"b": &InputObjectFieldConfig{Type: NewNonNull(String)},
-		"c": &InputObjectFieldConfig{Type: Int, DefaultValue: 5},
-		"d": &InputObjectFieldConfig{Type: color},
-	}})
+	var inObj *InputObject
+	inObj = NewInputObject(InputObjectConfig{Name: "In", Fields: InputObjectConfigFieldMapThunk(func() InputObjectConfigFieldMap {
+		return InputObjectConfigFieldMap{
+			"a": &InputObjectFieldConfig{Type: Int},
+			"b": &InputObjectFieldConfig{Type: NewNonNull(String)},
+			"c": &InputObjectFieldConfig{Type: Int, DefaultValue: 5},
+			"d": &InputObjectFieldConfig{Type: color},
+			"n": &InputObjectFieldConfig{Type: inObj}, // nested input object
+		}
+	})})
 	named := map[string]Type{"String": String, "Int": Int, "Boolean": Boolean, "Color": color, "In": inObj}
 	var node *Interface
 	var uni *Union
@@ -287,7 +336,7 @@ func zzBuildSchema(w *zzWorld) Schema {
 				fs[f.name] = &Field{Type: t, Args: args, Resolve: func(p ResolveParams) (interface{}, error) {
 					argsCopy := map[string]interface{}{}
 					for k, v := range p.Args {
-						argsCopy[k] = v
+						argsCopy[k] = zzDeepCopy(v) // a snapshot the resolver cannot reach
 					}
 					w.calls = append(w.calls, zzCall{Parent: parent, Field: f.name, Path: zzPathString(p.Info.Path), Args: argsCopy, Source: p.Source, Info: p.Info, Ctx: p.Context})
 					if w.hook != nil {
@@ -327,7 +376,11 @@ func zzBuildSchema(w *zzWorld) Schema {
 		ucfg.ResolveType = resolveType
 	}
 	uni = NewUnion(ucfg)
-	s, err := NewSchema(SchemaConfig{Query: objs["Query"], Mutation: objs["Mutation"], Types: []Type{objs["Other"]}})
+	// a custom directive for operations and fragment definitions
+	onop := NewDirective(DirectiveConfig{Name: "onop", Locations: []string{DirectiveLocationQuery, DirectiveLocationMutation,
+		DirectiveLocationSubscription, DirectiveLocationFragmentDefinition}})
+	s, err := NewSchema(SchemaConfig{Query: objs["Query"], Mutation: objs["Mutation"], Types: []Type{objs["Other"]},
+		Directives: append([]*Directive{onop}, SpecifiedDirectives...)})
 	if err != nil {
 		panic(err)
 	}
@@ -525,7 +578,7 @@ func (r *zzRef) refValue(g ast.Value, typ string) (interface{}, bool) {
 	case *ast.ObjectValue:
 		// input object In {a: Int, b: String!, c: Int = 5, d: Color}
 		out := map[string]interface{}{}
-		for _, fname := range []string{"a", "b", "c", "d"} {
+		for _, fname := range []string{"a", "b", "c", "d", "n"} {
 			set := false
 			for _, of := range g.Fields {
 				if of.Name.Value == fname {
@@ -534,6 +587,8 @@ func (r *zzRef) refValue(g ast.Value, typ string) (interface{}, bool) {
 						ft = "String"
 					} else if fname == "d" {
 						ft = "Color"
+					} else if fname == "n" {
+						ft = "In"
 					}
 					if v, ok := r.refValue(of.Value, ft); ok {
 						out[fname] = v
